@@ -3,4 +3,5 @@ import LdarModel.Props.C01
 import LdarModel.Props.C02
 import LdarModel.Props.C03
 import LdarModel.Props.C04
+import LdarModel.Props.C05
 import LdarModel.Props.C11
